@@ -1,7 +1,7 @@
 """C02 - PUS-C telecommand: exact encoding, inverse decode, short declared length rejected."""
 from __future__ import annotations
 
-from spverif.core.util import attempt, exc_sig, documented_errors, pool_uint, rand_uint, rand_bytes
+from spverif.core.util import attempt, exc_sig, documented_errors, pool_uint, rand_uint, rand_bytes, hist_len
 from spverif.ref import pus as R
 from spverif.ref.crc import crc16
 
@@ -226,7 +226,7 @@ def k_view_history(ctx, seed):
     if r.random() < 0.4:
         t = tcm.PusTc.unpack(bytes(t.pack()))
     ops = []
-    for step in range(r.randrange(2, 9)):
+    for step in range(hist_len(r, 2, 9)):
         op = r.choice(("pack", "calc_crc", "view", "apid", "seq_count", "source_id", "app_data", "pack_cached", "poison", "calc_crc_cached"))
         ops.append(op)
         if op == "pack":
